@@ -25,7 +25,7 @@ MANDATORY = ["ungrouped_add_ancilla_inside_span", "child_edited_after_add", "rej
              "reject:oversize_add_trailing_ancilla", "reject:oversize_add_heralded_child", "reject:plus_size", "reject:noninteger_mode",
              "shared_instances_checked", "passed_to:Simulator", "passed_to:Sampler", "passed_to:QuickSampler",
              "passed_to:Analyzer", "passed_to:Reck", "passed_to:Display", "passed_to:tomography", "converter_run",
-             "reused_object_contains_plain_group", "parent_edited_after_copy"]
+             "reused_object_contains_plain_group", "parent_edited_after_copy", "frozen_copy_taken"]
 DECIDING = ["mon.arg_fingerprints_compared", "mon.reject_atomicity_checks", "parent_stability_comparisons",
             "shared_instance_comparisons"]
 BUDGET = {"quick": 30, "thorough": 480}
@@ -104,7 +104,7 @@ def parent_with_ancillas(lw, rng, b, log):
 
 
 def reuse_history(ctx, lw, rng):
-    b = Builder(rng, lw, loss_p=0.1)
+    b = Builder(rng, lw, loss_p=0.1, param_p=float(rng.choice([0.0, 0.3])))
     xlog: list = []
     r = rng.random()
     if r < 0.25:
@@ -190,6 +190,13 @@ def reuse_history(ctx, lw, rng):
         hist.append(["edit_child"])
     except Exception:  # noqa: BLE001
         pass
+    # frozen copies (a rarely used option): neither the parent nor the reused argument may move
+    for target in [x] + parents[:2]:
+        try:
+            target.copy(freeze_parameters=True)       # argmon fingerprints the receiver before / after
+            ctx.bucket("frozen_copy_taken")
+        except Exception as e:  # noqa: BLE001
+            ctx.count("frozen_copy_raised:" + type(e).__name__)
     # copies: a copy of a parent taken now must not move when the parent receives another heralded sub-circuit
     for p in parents[:3]:
         try:
@@ -208,6 +215,12 @@ def reuse_history(ctx, lw, rng):
     if circmon.circuit_fingerprint(x_copy, with_unitary=True) != fp_copy:
         ctx.violation("a copy of the reused circuit, taken before it was used, changed", case={"history": hist},
                       mechanism="copy_of_argument_changed", monitor="copy independence")
+    # shared Parameter objects are the documented exception: change them only now, after every fingerprint
+    # comparison; the late-bound shadow comparison below still requires the parameters to be live in every parent
+    for prm in b.params[:4]:
+        v = prm.get()
+        if isinstance(v, float) and 0.05 < v < 0.95:
+            prm.set(v * 0.9)
     for p in parents:
         status, problems = circmon.compare(p, rng)
         if status == "compared":
